@@ -12,7 +12,7 @@
   * `effective` = `address.ipv4_mapped or address`.
   * classification = interval tables `Gen.C22.v4Table` / `v6Table`, regenerated on every run from
     the running interpreter's `ipaddress` module (is_loopback / is_private / is_global).
-  * `decide` = the verdict (`client.error` afterwards, or the ValueError that escapes the hook).
+  * `verdict` = the outcome (`client.error` afterwards, or the ValueError that escapes the hook).
 -/
 import MitmVerif.Basic.Bytes
 import MitmVerif.Gen.C22
@@ -198,7 +198,7 @@ def classify : Addr → Gen.C22.Cls
 /-! ### `Block.client_connected` -/
 
 inductive Mode where
-  | regular | transparent | upstream | reverse | socks5 | dns | wireguard | local | tun | osproxy
+  | regular | transparent | upstream | reverse | socks5 | dns | wireguard | local | tun
   deriving DecidableEq, Repr
 
 /-- `isinstance(client.proxy_mode, mode_specs.LocalMode)` -/
@@ -225,7 +225,7 @@ def decideAddr (a : Addr) (m : Mode) (blockGlobal blockPrivate : Bool) : Verdict
     let v1 := if blockPrivate && c.priv then Verdict.killedPrivate else Verdict.pass
     if blockGlobal && c.glob then .killedGlobal else v1
 
-def decide (peer : Text) (m : Mode) (blockGlobal blockPrivate : Bool) : Verdict :=
+def verdict (peer : Text) (m : Mode) (blockGlobal blockPrivate : Bool) : Verdict :=
   match parseIp (peerHost peer) with
   | none => .raised
   | some a => decideAddr a m blockGlobal blockPrivate
@@ -243,6 +243,6 @@ def handleClient (errorSet : Bool) : List Ev :=
   [Ev.hookClientDisconnected]
 
 def clientTrace (peer : Text) (m : Mode) (bg bp : Bool) : List Ev :=
-  handleClient (decide peer m bg bp).refused
+  handleClient (verdict peer m bg bp).refused
 
 end MitmVerif.C22
